@@ -156,8 +156,7 @@ func factsAt(blk *ssa.BasicBlock) []leFact {
 }
 
 type bnd struct {
-	depth int
-	seen  map[[3]interface{}]bool
+	inProgress map[[4]ssa.Value]int
 }
 
 // le: a <= b holds whenever control is at the start of blk (extra: facts of the edge used to get there).
@@ -165,6 +164,16 @@ func (e *bnd) le(a, b term, blk *ssa.BasicBlock, extra []leFact, d int) bool {
 	if d > 8 {
 		return false
 	}
+	// induction over loop phis: a goal met again while it is being proven is the induction hypothesis
+	key := [4]ssa.Value{a.v, a.lenOf, b.v, b.lenOf}
+	if e.inProgress == nil {
+		e.inProgress = map[[4]ssa.Value]int{}
+	}
+	if e.inProgress[key] > 0 {
+		return true
+	}
+	// (only goals whose phi is being unfolded are ever marked: see the phi cases below; a cycle through
+	// transitive facts alone never meets a marked goal)
 	// identical
 	if a.lenOf == nil && termEq(b, a.v) {
 		return true
@@ -215,6 +224,8 @@ func (e *bnd) le(a, b term, blk *ssa.BasicBlock, extra []leFact, d int) bool {
 	if a.lenOf == nil {
 		if phi, ok := stripIntConv(a.v).(*ssa.Phi); ok {
 			all := true
+			e.inProgress[key]++
+			defer func() { e.inProgress[key]-- }()
 			for i, ev := range phi.Edges {
 				pred := phi.Block().Preds[i]
 				var ef []leFact
@@ -242,6 +253,8 @@ func (e *bnd) le(a, b term, blk *ssa.BasicBlock, extra []leFact, d int) bool {
 	if b.lenOf == nil {
 		if phi, ok := stripIntConv(b.v).(*ssa.Phi); ok {
 			all := true
+			e.inProgress[key]++
+			defer func() { e.inProgress[key]-- }()
 			for i, ev := range phi.Edges {
 				pred := phi.Block().Preds[i]
 				var ef []leFact
@@ -277,6 +290,20 @@ func (e *bnd) lt(a, b term, blk *ssa.BasicBlock, extra []leFact, d int) bool {
 	for _, f := range append(factsAt(blk), extra...) {
 		if f.strict && termEq(a, f.p) && termEq(b, f.q) {
 			return true
+		}
+	}
+	// a < q <= b  or  a <= q < b  (loop header `i < end` with end <= len(x))
+	if d < 3 {
+		for _, f := range append(factsAt(blk), extra...) {
+			if !termEq(a, f.p) {
+				continue
+			}
+			if f.strict && e.le(term{v: f.q}, b, blk, extra, d+4) {
+				return true
+			}
+			if !f.strict && e.lt(term{v: f.q}, b, blk, extra, d+4) {
+				return true
+			}
 		}
 	}
 	if a.lenOf == nil {
